@@ -150,12 +150,14 @@ def c15(tier, seed):
                 # the same behaviours with long slices: each slot of the specification is 9 (17) consecutive slots
                 uninit("C15", tier, "uninit_long_q", 2, 2, 2, scale=9), uninit("C15", tier, "uninit_long17_q", 2, 1, 2, scale=17),
                 # the deprecated Arc::write / as_mut_slice are uniqueness gates: their load is part of the extracted protocol
-                mm("C15", tier, "mm_deprecated_write_q", [("c15_2x3", ["clone", "read", "drop", "get_mut"], 2, 3, 2, False)])] + swaps("C15", tier, seed, hows=("uninit",))
+                mm("C15", tier, "mm_deprecated_write_q", [("c15_2x3", ["clone", "read", "drop", "get_mut"], 2, 3, 2, False)]),
+                stage(CT.ctor_stage, "C15", tier, "release_q", ["release"], True, only_cats=["frees", "drops", "baddrop", "leak", "crash", "panicked"])] + swaps("C15", tier, seed, hows=("uninit",))
     return [uninit("C15", tier, "uninit_t", 3, 2, 3), uninit("C15", tier, "uninit_t4", 4, 2, 2),
             uninit("C15", tier, "uninit_walks_t", 5, 4, 5, simulate=(10000, 60, seed)),
             uninit("C15", tier, "uninit_long_t", 3, 2, 2, scale=9), uninit("C15", tier, "uninit_long17_t", 2, 2, 3, scale=17),
             uninit("C15", tier, "uninit_long64_t", 2, 1, 2, scale=64),
-            mm("C15", tier, "mm_deprecated_write_t", [("c15_2x4", ["clone", "read", "drop", "get_mut"], 2, 4, 2, False), ("c15_3x2", ["clone", "read", "drop", "get_mut"], 3, 2, 1, False)])] + swaps("C15", tier, seed, hows=("uninit",))
+            mm("C15", tier, "mm_deprecated_write_t", [("c15_2x4", ["clone", "read", "drop", "get_mut"], 2, 4, 2, False), ("c15_3x2", ["clone", "read", "drop", "get_mut"], 3, 2, 1, False)]),
+            stage(CT.ctor_stage, "C15", tier, "release_t", ["release"], True, only_cats=["frees", "drops", "baddrop", "leak", "crash", "panicked"])] + swaps("C15", tier, seed, hows=("uninit",))
 
 
 def c06(tier, seed):
@@ -248,7 +250,8 @@ def c01(tier, seed):
                 mm("C01", tier, "mm_clone_drop_q", [("c01_2x3", ["clone", "read", "drop"], 2, 3, 2, False)]),
                 nested_frames("C01", tier), thin_lengths("C01", tier), inj("C01", tier),
                 # every release path of every shape returns the block once; real ArcSwap traffic keeps counts exact
-                lay("C01", tier, "layout_matrix_q")] + swaps("C01", tier, seed) + long_walks("C01", tier, seed)
+                lay("C01", tier, "layout_matrix_q"),
+                stage(CT.ctor_stage, "C01", tier, "release_q", ["release", "union_drop"], True, only_cats=["frees", "drops", "baddrop", "leak", "crash", "panicked"])] + swaps("C01", tier, seed) + long_walks("C01", tier, seed)
     return [sized("C01", tier, "sized_life_t", BASE + CONV + BORROW + ["TryUnique"], 4, 2, 2),
             sized("C01", tier, "sized_life_t5", BASE + CONV_CORE + ["Enter", "Exit"], 5, 2, 1, hows=("new", "newB")),
             walks("C01", tier, seed),
@@ -256,7 +259,8 @@ def c01(tier, seed):
             slices("C01", tier, "slices_life_t", 4, 2, 2), slices("C01", tier, "slices_walks_t", 6, 4, 3, simulate=(5000, 60, seed)),
             sized("C01", tier, "sized_life_nostd_t", BASE + CONV + BORROW + UNIQ + COW + UNWRAP, 3, 2, 1, harness_cfg="b"),
             mm("C01", tier, "mm_clone_drop_t", [("c01_2x3", ["clone", "read", "drop"], 2, 3, 2, False), ("c01_3x3", ["clone", "read", "drop"], 3, 3, 1, False)]), inj("C01", tier),
-            lay("C01", tier, "layout_matrix_t")] + swaps("C01", tier, seed) + long_walks("C01", tier, seed)
+            lay("C01", tier, "layout_matrix_t"),
+            stage(CT.ctor_stage, "C01", tier, "release_t", ["release", "union_drop"], True, only_cats=["frees", "drops", "baddrop", "leak", "crash", "panicked"])] + swaps("C01", tier, seed) + long_walks("C01", tier, seed)
 
 
 def c03(tier, seed):
@@ -277,10 +281,14 @@ def c04(tier, seed):
     if tier == "quick":
         return [sized("C04", tier, "sized_count_q", ops, 3, 2, 1), walks("C04", tier, seed),
                 thin("C04", tier, "thin_count_q", THIN_OPS, 3, 2, 1, 1), slices("C04", tier, "slices_count_q", 3, 2, 2),
-                tr("C04", tier, "threads_q", seed), inj("C04", tier), stage(AP.ind_stage, "C04", tier, "apalache_inductive_q")] + swaps("C04", tier, seed) + long_walks("C04", tier, seed)
+                tr("C04", tier, "threads_q", seed), inj("C04", tier), stage(AP.ind_stage, "C04", tier, "apalache_inductive_q"),
+                # comparing, hashing or formatting never changes a count, not even while it is in progress
+                stage(CT.ctor_stage, "C04", tier, "observers_q", ["observe"], True, only_cats=["count", "crash"])] + swaps("C04", tier, seed) + long_walks("C04", tier, seed)
     return [sized("C04", tier, "sized_count_t", ops, 4, 2, 2), walks("C04", tier, seed),
             thin("C04", tier, "thin_count_t", THIN_OPS, 4, 2, 2, 2), slices("C04", tier, "slices_count_t", 4, 2, 2),
-            tr("C04", tier, "threads_t", seed), inj("C04", tier), stage(AP.ind_stage, "C04", tier, "apalache_inductive_t")] + swaps("C04", tier, seed) + long_walks("C04", tier, seed)
+            tr("C04", tier, "threads_t", seed), inj("C04", tier), stage(AP.ind_stage, "C04", tier, "apalache_inductive_t"),
+                # comparing, hashing or formatting never changes a count, not even while it is in progress
+                stage(CT.ctor_stage, "C04", tier, "observers_t", ["observe"], True, only_cats=["count", "crash"])] + swaps("C04", tier, seed) + long_walks("C04", tier, seed)
 
 
 def c08(tier, seed):
